@@ -525,4 +525,149 @@ Proof.
     destruct (depth =? 0); eauto; destruct (lim =? 0); eauto; destruct o; eauto.
 Qed.
 
+(* ------------------------------------------------------------------ substring assertions: the server's
+   translation is a superset of the standard's selection *)
+Lemma prefix_split : forall q t, prefix q t = true -> t = q ++ skipn (List.length q) t.
+Proof.
+  induction q as [|x q IH]; intros t H; simpl in *; auto.
+  destruct t as [|y t]; try discriminate. apply andb_true_iff in H as [H1 H2].
+  apply N.eqb_eq in H1. subst. simpl. f_equal. auto.
+Qed.
+Lemma prefix_app_self : forall q r, prefix q (q ++ r) = true.
+Proof. induction q as [|x q IH]; intros r; simpl; auto. rewrite N.eqb_refl. simpl. auto. Qed.
+Lemma prefix_app_r : forall q a b, prefix q a = true -> prefix q (a ++ b) = true.
+Proof.
+  induction q as [|x q IH]; intros a b H; simpl in *; auto.
+  destruct a as [|y a]; try discriminate. simpl. apply andb_true_iff in H as [H1 H2].
+  rewrite H1. simpl. auto.
+Qed.
+Lemma contains_mid : forall q pre r, contains q (pre ++ q ++ r) = true.
+Proof.
+  induction pre as [|c pre IH]; intros r.
+  - simpl. destruct (q ++ r) eqn:E; simpl; rewrite <- E, prefix_app_self; reflexivity.
+  - simpl. rewrite IH. apply orb_true_r.
+Qed.
+Lemma contains_tail : forall q pre r, contains q r = true -> contains q (pre ++ r) = true.
+Proof.
+  induction pre as [|c pre IH]; intros r H; simpl; auto. rewrite (IH r H). apply orb_true_r.
+Qed.
+Lemma suffix_tail : forall q pre r, suffix q r = true -> suffix q (pre ++ r) = true.
+Proof. intros q pre r H. unfold suffix in *. rewrite rev_app_distr. apply prefix_app_r. exact H. Qed.
+
+Lemma find_after_split : forall q t r, find_after q t = Some r -> exists pre, t = pre ++ q ++ r.
+Proof.
+  intros q. induction t as [|c t IH]; intros r H; simpl in H.
+  - destruct (prefix q []) eqn:P; try discriminate. inversion H; subst. exists []. simpl.
+    apply prefix_split in P. exact P.
+  - destruct (prefix q (c :: t)) eqn:P.
+    + inversion H; subst. exists []. simpl. apply prefix_split in P. exact P.
+    + destruct (IH _ H) as [pre E]. exists (c :: pre). simpl. rewrite E. reflexivity.
+Qed.
+
+Lemma anys_after_spec : forall anys t r, anys_after anys t = Some r ->
+  forallb (fun q => contains q t) anys = true /\ exists pre, t = pre ++ r.
+Proof.
+  induction anys as [|q rest IH]; intros t r H; simpl in H.
+  - inversion H; subst. split; auto. exists []. reflexivity.
+  - destruct (find_after q t) as [t'|] eqn:F; try discriminate.
+    destruct (find_after_split _ _ _ F) as [pre1 E1].
+    destruct (IH _ _ H) as [Hall [pre2 E2]]. split.
+    + simpl. apply andb_true_iff. split.
+      * rewrite E1. apply contains_mid.
+      * apply forallb_forall. intros q' Hq'. rewrite forallb_forall in Hall.
+        rewrite E1, app_assoc. apply contains_tail. auto.
+    + exists (pre1 ++ q ++ pre2). rewrite E1, E2. rewrite <- !app_assoc. reflexivity.
+Qed.
+
+(* the standard's substring assertion on ONE value implies each of the server's independent terms *)
+Lemma sub_match_implies_terms : forall ini anys fin t,
+  sub_match ini anys fin t = true ->
+  (match ini with Some q => prefix q t | None => true end) = true /\
+  forallb (fun q => contains q t) anys = true /\
+  (match fin with Some q => suffix q t | None => true end) = true.
+Proof.
+  intros ini anys fin t H. unfold sub_match in H.
+  assert (exists t1 pre0, (match ini with Some q => if prefix q t then Some (skipn (List.length q) t) else None | None => Some t end) = Some t1
+          /\ t = pre0 ++ t1 /\ (match ini with Some q => prefix q t | None => true end) = true) as [t1 [pre0 [E0 [Et Hi]]]].
+  { destruct ini as [q|].
+    - destruct (prefix q t) eqn:P; try discriminate. exists (skipn (List.length q) t), q. repeat split; auto.
+      apply prefix_split. exact P.
+    - exists t, []. repeat split; auto. }
+  rewrite E0 in H. destruct (anys_after anys t1) as [t2|] eqn:A; try discriminate.
+  destruct (anys_after_spec _ _ _ A) as [Hall [pre2 E2]]. repeat split; auto.
+  - apply forallb_forall. intros q Hq. rewrite forallb_forall in Hall. rewrite Et.
+    apply contains_tail. auto.
+  - destruct fin as [q|]; auto. rewrite Et, E2, app_assoc. apply suffix_tail. exact H.
+Qed.
+
+
+Lemma leaf_str_witness : forall sch e a sy m k raw t,
+  assoc a sch = Some (sy, m) -> is_str sy = true -> (k = KCnt \/ k = KStw \/ k = KEnw) ->
+  In (VS t) (vals e a) -> strop k (lower raw) (nval sy t) = true ->
+  leaf_holds sch e k a (VS (if folds sy then raw else lower raw)) = true.
+Proof.
+  intros sch e a sy m k raw t As S Hk Hin Hs.
+  assert (E : existsb (fun x => match x with
+                                | VS t0 => if folds sy then strop k (lower (if folds sy then raw else lower raw)) (lower t0)
+                                           else strop k (if folds sy then raw else lower raw) t0
+                                | VN _ => false end) (vals e a) = true).
+  { apply existsb_exists. exists (VS t). split; auto. unfold nval in Hs. destruct (folds sy); exact Hs. }
+  unfold leaf_holds. rewrite As, S. destruct Hk as [-> | [-> | ->]]; exact E.
+Qed.
+
+Lemma anys_terms : forall sch p e a sy m t anys ts,
+  assoc a sch = Some (sy, m) -> is_str sy = true -> In (VS t) (vals e a) ->
+  mapm (fun x => bind (clone_pv sch p a x) (fun v => Ok (FcLeaf KCnt a v))) anys = Ok ts ->
+  forallb (fun q => contains q (nval sy t)) (map lower anys) = true ->
+  forallb (fmatch sch e) ts = true.
+Proof.
+  intros sch p e a sy m t anys. induction anys as [|q rest IH]; intros ts As S Hin Hm Hall; simpl in Hm.
+  - inversion Hm. reflexivity.
+  - destruct (clone_pv sch p a q) as [v|er] eqn:C; simpl in Hm; try discriminate.
+    destruct (mapm _ rest) as [ts'|er] eqn:M; simpl in Hm; try discriminate.
+    inversion Hm; subst ts. simpl in Hall. apply andb_true_iff in Hall as [H1 H2].
+    simpl. rewrite (IH ts' As S Hin eq_refl H2), andb_true_r.
+    rewrite (clone_pv_str _ _ _ _ _ _ _ C As S).
+    eapply leaf_str_witness; eauto.
+Qed.
+
+(* At a positive position the server's translation of a substring assertion never loses an entry
+   the standard selects: it is a superset (the deviation is only ever "too many"). *)
+Lemma ldap_substring_superset : forall sch p a ini anys fin depth lim g lim' e,
+  from_ldap sch p depth lim (LSub a ini anys fin) = Ok (g, lim') ->
+  ldap_sem sch p e (LSub a ini anys fin) = TT -> fmatch sch e g = true.
+Proof.
+  intros sch p a ini anys fin depth lim g lim' e Hf Hs.
+  simpl in Hf. destruct (depth =? 0); try discriminate. destruct (lim =? 0); try discriminate.
+  destruct (sub_terms sch p (ldap_attr_map a) ini anys fin) as [ts|er] eqn:S; try discriminate.
+  inversion Hf; subst g lim'. clear Hf.
+  simpl in Hs. unfold syn_of in Hs.
+  destruct (assoc (ldap_attr_map a) sch) as [[sy m]|] eqn:As; try discriminate.
+  destruct (is_str sy) eqn:St; try discriminate.
+  destruct (existsb _ (vals e (ldap_attr_map a))) eqn:Ex; try discriminate. clear Hs.
+  apply existsb_exists in Ex as [x [Hin Hx]]. destruct x as [t|n]; try discriminate.
+  apply sub_match_implies_terms in Hx as [Hi [Ha Hfin]].
+  unfold sub_terms in S.
+  destruct (match ini with
+            | Some x => bind (clone_pv sch p (ldap_attr_map a) x) (fun v => Ok [FcLeaf KStw (ldap_attr_map a) v])
+            | None => Ok [] end) as [t1|er] eqn:E1; simpl in S; try discriminate.
+  destruct (mapm _ anys) as [t2|er] eqn:E2; simpl in S; try discriminate.
+  destruct (match fin with
+            | Some x => bind (clone_pv sch p (ldap_attr_map a) x) (fun v => Ok [FcLeaf KEnw (ldap_attr_map a) v])
+            | None => Ok [] end) as [t3|er] eqn:E3; simpl in S; try discriminate.
+  inversion S; subst ts. clear S. simpl. rewrite !forallb_app.
+  apply andb_true_iff. split; [|apply andb_true_iff; split].
+  - destruct ini as [x|]; simpl in E1.
+    + destruct (clone_pv sch p (ldap_attr_map a) x) as [v|er] eqn:C; simpl in E1; try discriminate.
+      inversion E1; subst t1. simpl. rewrite andb_true_r.
+      rewrite (clone_pv_str _ _ _ _ _ _ _ C As St). eapply leaf_str_witness; eauto.
+    + inversion E1. reflexivity.
+  - eapply anys_terms; eauto.
+  - destruct fin as [x|]; simpl in E3.
+    + destruct (clone_pv sch p (ldap_attr_map a) x) as [v|er] eqn:C; simpl in E3; try discriminate.
+      inversion E3; subst t3. simpl. rewrite andb_true_r.
+      rewrite (clone_pv_str _ _ _ _ _ _ _ C As St). eapply leaf_str_witness; eauto.
+    + inversion E3. reflexivity.
+Qed.
+
 Transparent scim_known.
